@@ -40,7 +40,8 @@ Qed.
 
 Lemma dec_scalar_prog : forall k s cur v s', dec_scalar k s cur = Ok v s' -> (lenw s' < lenw s)%nat /\ ext s' = ext s.
 Proof.
-  intros k s cur v s' H. destruct k; cbn [dec_scalar] in H;
+  intros k s cur v s' H. rewrite dec_scalar_spec in H.
+  destruct k;
     try (destruct (read_varint s) as [u s1| |s1] eqn:E; try discriminate; inversion H; subst;
          apply read_varint_ok_shorter in E; exact E).
   - destruct (read_fixed 4 s) as [[u s1]|] eqn:E; [|discriminate]. inversion H; subst.
@@ -369,7 +370,7 @@ Qed.
 
 Lemma dec_scalar_nohang : forall k s cur, dec_scalar k s cur <> Hang.
 Proof.
-  intros k s cur. destruct k; cbn [dec_scalar];
+  intros k s cur. rewrite dec_scalar_spec. destruct k;
     try (destruct (read_varint s); discriminate); destruct (read_fixed _ s) as [[? ?]|]; discriminate.
 Qed.
 
